@@ -17,7 +17,7 @@ SimEnv ==
   \/ \E n \in Nodes, adv \in Advs0 :
         /\ node[n].alive
         /\ (adv = "j") => (n \in Electors /\ node[n].term < MaxTerm)
-        /\ Tick(n, adv, DefaultCut, [sid |-> ToString(<<node[n].applied, node[n].term, Len(node[n].hist)>>), size |-> SnapSize], <<>>)
+        /\ Tick(n, adv, DefaultCut, [sid |-> ToString(<<node[n].applied, node[n].term, Len(node[n].hist)>>), size |-> SnapSize], <<>>, TRUE)
         /\ UNCHANGED <<unused, faults>>
         /\ acts' = Append(acts, <<"Tick", n, adv>>) /\ lastTick' = n
   \/ \E i, j \in Nodes : Deliver(i, j) /\ UNCHANGED <<unused, faults>> /\ lastTick' = Nil /\ acts' = Append(acts, <<"Deliver", i, j>>)
